@@ -302,6 +302,36 @@ func runCtl(c *rig.Ctx, cs Case) verdict {
 	if err := c.Model("C11.ctl", req, &ms); err != nil {
 		return verdict{kind: "diff", class: "c11.model-error", what: "model error: " + err.Error()}
 	}
+	// judge 1 first (it only needs the lister's objects and the real state), so that a violation is reported as
+	// such even when model and code disagree as well
+	for k, st := range steps {
+		m := ms[k]
+		if st.Result == "crash" || m.State == nil {
+			break
+		}
+		for _, mc := range m.State.Clusters {
+			n := rig.UnHex(mc.Name)
+			served := st.Served[n]
+			if !contains(st.Pending, n) {
+				switch {
+				case mc.Expected == nil && served != nil:
+					return verdict{kind: "judge", class: "c11.ctl.deleted-still-served", impl: served,
+						what: fmt.Sprintf("after op %d nothing is pending for cluster %s and its object is gone, but it is still served", k+1, n)}
+				case mc.Expected != nil && served == nil:
+					return verdict{kind: "judge", class: "c11.ctl.settled-not-served",
+						what: fmt.Sprintf("after op %d nothing is pending for cluster %s and its object exists, but it is not served", k+1, n)}
+				case mc.Expected != nil:
+					if d := obsDiff(*served, mc.Expected.Obs(), false); len(d) > 0 {
+						return verdict{kind: "judge", class: "c11.ctl.settled-differs." + d[0], impl: served, model: mc.Expected.Obs(),
+							what: fmt.Sprintf("after op %d nothing is pending for cluster %s, but its state is not what the lister's current object prescribes in: %s", k+1, n, strings.Join(d, ", "))}
+					}
+				}
+			}
+		}
+	}
+	if lateJudge != nil && lateJudge.class != "c11.ctl.names" {
+		return *lateJudge
+	}
 	for k, st := range steps {
 		m := ms[k]
 		if m.Result != st.Result {
@@ -340,22 +370,6 @@ func runCtl(c *rig.Ctx, cs Case) verdict {
 				if d := obsDiff(*served, mc.Served.Obs(), true); len(d) > 0 {
 					return verdict{kind: "diff", class: "c11.diff.ctl-obs." + d[0], impl: served, model: mc.Served.Obs(),
 						what: fmt.Sprintf("op %d: cluster %s: real ClusterInfo and model differ in: %s", k+1, n, strings.Join(d, ", "))}
-				}
-			}
-			// judge 1: the Lean judge on the implementation's state
-			if !contains(st.Pending, n) {
-				switch {
-				case mc.Expected == nil && served != nil:
-					return verdict{kind: "judge", class: "c11.ctl.deleted-still-served", impl: served,
-						what: fmt.Sprintf("after op %d nothing is pending for cluster %s and its object is gone, but it is still served", k+1, n)}
-				case mc.Expected != nil && served == nil:
-					return verdict{kind: "judge", class: "c11.ctl.settled-not-served",
-						what: fmt.Sprintf("after op %d nothing is pending for cluster %s and its object exists, but it is not served", k+1, n)}
-				case mc.Expected != nil:
-					if d := obsDiff(*served, mc.Expected.Obs(), false); len(d) > 0 {
-						return verdict{kind: "judge", class: "c11.ctl.settled-differs." + d[0], impl: served, model: mc.Expected.Obs(),
-							what: fmt.Sprintf("after op %d nothing is pending for cluster %s, but its state is not what the lister's current object prescribes in: %s", k+1, n, strings.Join(d, ", "))}
-					}
 				}
 			}
 		}
